@@ -1,4 +1,5 @@
 import Mimium.Proofs.Layout
+import Mimium.Proofs.MirExample
 import Mimium.Proofs.FlatTreeTop
 import Mimium.Proofs.FlatTreeLabel
 import Mimium.Proofs.FlatTreeEval
@@ -9,6 +10,7 @@ import Mimium.Proofs.PublishMono
 import Mimium.Proofs.PublishZ
 import Mimium.Proofs.FlatTreeArmsRun
 import Mimium.Proofs.PublishArms
+import Mimium.Proofs.MirStateFn
 /-!
 # C05 — compile-time state layout matches run-time state accesses
 
@@ -92,6 +94,24 @@ skipping payload are accepted by the GREEDY executable judge `conformsSel` (prov
 trace with `self` first and last, which is what the judge's soundness theorem states; the judge itself is applied to the
 real VM's traces); `match` is not a construct of the reference semantics (its arms are corresponded on VM vs WASM, C01);
 and that returned values have the word
+of trees; `C05_wider_class`: the narrow class is contained).  Outside the class the layout is not visited in order:
+`C05_state_in_arms_not_visited` (finding F3 at model level).
+## the MIR of every program, checked statically (fourth part, namespace `Mimium.Mir`)
+
+`Model/Mir.lean` is a semantics of the MIR itself (run against the VM on every generated program); `Model/MirState.lean`
+is a decidable check `stateOkFn` of ONE MIR function against its published skeleton (per-block certificate, callees
+resolved statically).  `C05_mir_state_ok_sound`: for every program and every set `ok` of functions that pass the check
+relative to the set (`okSetChecked`, evaluated by `drv_mir` on the dump of every generated program), EVERY run of a function
+of the set in the MIR semantics — any call depth, arguments, closure, globals, storage, cursor — that returns performs
+exactly `expectedTrace sk cursor` on the storage it runs in and returns the cursor; `C05_mir_dsp_sample_conforms`: hence every
+sample of `dsp` is accepted by `Layout.conforms`, stays inside `total_size` and leaves the cursor at 0 (so the next sample
+starts from the same invariant).  This turns the sampled trace conformance into a per-program proof obligation.
+NOT proved there: that the VM executes the MIR as `Model/Mir.lean` says (corresponded on every program, bitwise);
+progress (that a checked function never gets stuck on a state access: the theorem is about runs that return).
+
+NOT proved: that the Rust `mirgen` computes `publishFn` (corresponded, not proved); the agreement corollaries
+(`…_same_words_same_eval_future`, `…_eval_respects_agreement`, `…_state_effect_is_tree_ops`) are proved for the narrow class
+only (their `Covers` / tree-equality statements exclude call sites without a cell); and that returned values have the word
 count of their `Feed` cell (`NPayOk`, a typing fact; soundness of the type checker is not proved, see C03).
 -/
 namespace Mimium.Layout
@@ -923,3 +943,82 @@ theorem C05_state_in_arms_own_cells :
     | ite _ ha _ => exact visits_call_ne_nil ha
 
 end Mimium.Publish
+
+namespace Mimium.Mir
+open Mimium.StateMachine Mimium.Layout Mimium.StateTree
+
+/-- Soundness of the static state check.  `okSetChecked P ok`: every function of `ok` passes `stateOkFn` against its own
+published skeleton, with callees in `ok`.  Then EVERY run (all fuels = call depths, argument words, closures, globals,
+storages, cursors, earlier traces) of a function of `ok` in the MIR semantics that returns has appended exactly the accesses
+its layout prescribes at the cursor it was called with, and has returned the cursor. -/
+theorem C05_mir_state_ok_sound (P : Prog) (ok : List Nat) (hchk : okSetChecked P ok = true)
+    (n g : Nat) (hg : g ∈ ok) (ws : List UInt64) (clo : Option Nat) (glob glob' : Glob) (st st' : St)
+    (tr tr' : List Access) (out : List UInt64)
+    (hrun : runFn P n g ws clo glob st tr = .ok (out, glob', st', tr')) :
+    ∃ f, P.fns[g]? = some f ∧ tr' = tr ++ expectedTrace f.sk st.pos ∧ st'.pos = st.pos := by
+  have hset : ∀ g ∈ ok, ∃ f cert, P.fns[g]? = some f ∧ stateOkFn P ok f cert = true := by
+    intro g hg
+    simp only [okSetChecked, List.all_eq_true] at hchk
+    have := hchk g hg
+    cases hf : P.fns[g]? with
+    | none => simp [hf] at this
+    | some f => exact ⟨f, inferCert P ok f, rfl, by simpa [hf] using this⟩
+  exact runFn_sound hset n g hg ws clo glob st tr out glob' st' tr' hrun
+
+/-- One sample of `dsp` (`Machine.step`: what `drv_mir` runs against the VM): when `dsp` is in a checked set and the cursor
+is 0, the recorded accesses are accepted by `Layout.conforms` — the checker the VM's hook traces are judged with — the
+cursor is 0 again, and (layout well formed) every access lies inside `total_size`. -/
+theorem C05_mir_dsp_sample_conforms (P : Prog) (ok : List Nat) (hchk : okSetChecked P ok = true)
+    (d : Nat) (hd : findFn P "dsp" = some d) (hmem : d ∈ ok) (fuel : Nat) (m m' : Machine) (now : UInt64)
+    (inputs out : List UInt64) (tr : List Access) (hpos : m.st.pos = 0)
+    (hstep : Machine.step fuel P m now inputs = .ok (out, m', tr)) :
+    ∃ f, P.fns[d]? = some f ∧ conforms f.sk tr m'.st.pos = true ∧ m'.st.pos = 0 ∧
+      (WF f.sk = true → ∀ a ∈ tr, a.pos + a.size ≤ f.sk.size) := by
+  simp only [Machine.step, hd, Bind.bind, Except.bind] at hstep
+  cases hr : runFn P fuel d inputs none { m.g with mem := #[], now := now } m.st [] with
+  | error e => simp [hr] at hstep
+  | ok v =>
+    obtain ⟨o, g', st', tr'⟩ := v
+    simp only [hr, Except.ok.injEq, Prod.mk.injEq] at hstep
+    obtain ⟨_, hm, htr⟩ := hstep
+    obtain ⟨f, hf, htr', hpos'⟩ := C05_mir_state_ok_sound P ok hchk fuel d hmem inputs none _ g' m.st st' [] tr' o hr
+    subst hm; subst htr
+    rw [hpos] at htr' hpos'
+    simp only [List.nil_append] at htr'
+    refine ⟨f, hf, ?_, hpos', ?_⟩
+    · simp [conforms, htr', hpos']
+    · intro hwf a ha
+      rw [htr'] at ha
+      have := C05_expected_in_bounds f.sk 0 hwf a ha
+      omega
+
+
+/-! ### non-vacuity on a real dump (`Proofs/MirExample.lean`: the MIR the compiler produced for `corpus/MIR/*.mmm`), kernel-evaluated -/
+
+/-- every function of the example (global initialiser, `cnt` with `self`, `two` with a delay, `mk`, a lambda with `mem`, `dsp` with
+three stateful calls, one of them in front of an `if`) passes the static check, and the set is closed under it -/
+example : okSet exProg = [0, 1, 2, 3, 4, 5] ∧ okSetChecked exProg (okSet exProg) = true := by decide +kernel
+
+/-- hence EVERY run of its `dsp` (function 5) performs the five accesses of the published layout at the cursor it starts from -/
+example (n : Nat) (ws out : List UInt64) (clo : Option Nat) (glob glob' : Glob) (st st' : St) (tr tr' : List Access)
+    (h : runFn exProg n 5 ws clo glob st tr = .ok (out, glob', st', tr')) :
+    tr' = tr ++ [⟨.delay, 0 + st.pos, 5⟩, ⟨.get, 5 + st.pos, 1⟩, ⟨.set, 5 + st.pos, 1⟩, ⟨.get, 6 + st.pos, 1⟩, ⟨.set, 6 + st.pos, 1⟩]
+      ∧ st'.pos = st.pos := by
+  obtain ⟨f, hf, h1, h2⟩ := C05_mir_state_ok_sound exProg [0, 1, 2, 3, 4, 5] (by decide +kernel) n 5 (by decide) ws clo glob glob' st st' tr tr' out h
+  have hsk : f.sk = .fn [.fn [.delay 3], .fn [.feed 1], .fn [.feed 1]] := by
+    have : exProg.fns[5]? = some exProg_dsp := rfl
+    rw [this] at hf
+    rw [← Option.some.inj hf]; rfl
+  refine ⟨?_, h2⟩
+  rw [h1, expected_at, hsk]
+  have : expectedTrace (.fn [.fn [.delay 3], .fn [.feed 1], .fn [.feed 1]]) 0 =
+      [⟨.delay, 0, 5⟩, ⟨.get, 5, 1⟩, ⟨.set, 5, 1⟩, ⟨.get, 6, 1⟩, ⟨.set, 6, 1⟩] := by decide +kernel
+  rw [this]; rfl
+
+/-- state inside `if` arms as a failed proof obligation: with a stateful call in both arms of an `if` a run visits the cell of ONE arm
+only (on the tree of finding F3 the else arm pushed and the merge block popped unconditionally; since /repo defc5f6 every arm owns its
+cell and brackets it itself), so no run performs `expectedTrace` of the published layout and `dsp` is rejected — and only `dsp`: the
+set without it is closed, the set with it is not -/
+example : okSet exStateInArms = [0, 1] ∧ okSetChecked exStateInArms [0, 1] = true ∧ okSetChecked exStateInArms [0, 1, 2] = false := by
+  decide +kernel
+end Mimium.Mir
